@@ -28,7 +28,7 @@ func main() {
 		{Name: "rb-block-edges-3pg-3ops", Cfg: "MC_DBFile_rb_L3.cfg", Timeout: 10 * time.Minute, MaxKeep: core.Pick(args, 300, 0), Layouts: []sim.Layout{sim.L3(512), sim.L2(512)}},
 		{Name: "journal-mode-switches-2pg-5ops", Cfg: "MC_DBFile_modeswitch.cfg", Timeout: 10 * time.Minute, MaxKeep: core.Pick(args, 500, 6000)},
 		{Name: "rb-free-page-reuse-3pg-3ops", Cfg: "MC_DBFile_rb_free.cfg", Timeout: 10 * time.Minute, MaxKeep: core.Pick(args, 400, 0)},
-		{Name: "lock-page-layout-4pg", Cfg: "MC_DBFile_lock_rb.cfg", Timeout: 10 * time.Minute, MaxKeep: core.Pick(args, 4, 48), Layouts: []sim.Layout{sim.L4()}, Workers: 4, MinNs: 4},
+		{Name: "lock-page-layout-4pg", Cfg: "MC_DBFile_lock_rb.cfg", Timeout: 10 * time.Minute, MaxKeep: core.Pick(args, 3, 48), Layouts: []sim.Layout{sim.L4()}, Workers: 3, MinNs: 4},
 		{Name: "deep-simulation-4pg-8ops", Cfg: "MC_DBFile_sim.cfg", Simulate: true, Num: core.Pick(args, 40, 400), Depth: 200, Timeout: 10 * time.Minute, MaxKeep: core.Pick(args, 150, 3000)},
 	})
 }
